@@ -9,7 +9,8 @@ from ..impl_dwt import T, N as NP
 
 PROP = 'C11'
 MODULE = 'WaveletsVerif.Properties.C11'
-THEOREMS = ['WV.C11.interleave4_get', 'WV.C11.colifilt1_raises_iff', 'WV.C11.invJ2_absent_high', 'WV.C11.DTCWTInverse_all_absent', 'WV.C11.colifilt1_eq_ref', 'WV.C11.branch_get']
+THEOREMS = ['WV.C11.interleave4_get', 'WV.C11.colifilt1_raises_iff', 'WV.C11.invJ2_absent_high', 'WV.C11.DTCWTInverse_all_absent', 'WV.C11.colifilt1_eq_ref', 'WV.C11.branch_get',
+            'WV.C03T.reflect_eq_symIdx', 'WV.C03T.symm_pad_1d_eq', 'WV.C03T.symmPad_eq_gather']
 OPS = ['colifilt', 'rowifilt', 'c2q', 'inv_j1', 'inv_j2plus', 'DTCWTInverse']
 KF_MID = 'C11-absent-level-after-extension'
 
